@@ -124,6 +124,8 @@ def run(ctx):
             progs = [reader_prog(rng, tree) for _ in range(nthreads)]
             if pi == 0:   # first touch of the same lazily loaded directory + data reads
                 progs = [[("listdir", "/dir one"), ("read", "/dir one/inner/deep file.bin", 0, 1700)], [("exists", "/dir one/inner/deep file.bin"), ("read", "/A.TXT", 100, 500)]]
+            if pi == 1:   # two readers on the SAME file over several clusters, each through its own handle, at different offsets (C18-m5)
+                progs = [[("read", "/dir one/inner/deep file.bin", 0, 1700)], [("read", "/dir one/inner/deep file.bin", 600, 1000), ("read", "/dir one/inner/deep file.bin", 1300, 300)]]
             solo = []
             for p in progs:
                 f, _ = mount(img)
@@ -134,7 +136,7 @@ def run(ctx):
             sc = one_schedule(ctx, img, progs, solo, S.preempt_policy({}), False, label, dict(rep0, preempt={}))
             n = sc.step
             pts = list(range(1, n + 1))
-            cap = ctx.scale(70 if pi else 600, 400 if pi else 3000)     # the fixed first program: every single pre-emption point
+            cap = ctx.scale(70 if pi > 1 else 600, 400 if pi > 1 else 3000)     # the two fixed programs: every single pre-emption point
             if len(pts) > cap:
                 pts = sorted(rng.sample(pts, cap))
             else:
